@@ -6239,7 +6239,7 @@ impl Deserialize for bit_vec::BitVec<u32> {
         if numbytes & (1 << 63) != 0 {
             //New format
             numbytes &= !(1 << 63);
-            let mut ret = bit_vec::BitVec::with_capacity(numbytes * 8);
+            let mut ret = bit_vec::BitVec::with_capacity(numbytes.saturating_mul(8));
             unsafe {
                 let num_words = numbytes / 4;
                 let storage = ret.storage_mut();
@@ -6413,7 +6413,7 @@ impl Deserialize for bit_vec08::BitVec<u32> {
         if numbytes & (1 << 63) != 0 {
             //New format
             numbytes &= !(1 << 63);
-            let mut ret = bit_vec08::BitVec::with_capacity(numbytes * 8);
+            let mut ret = bit_vec08::BitVec::with_capacity(numbytes.saturating_mul(8));
             unsafe {
                 let num_words = numbytes / 4;
                 let storage = ret.storage_mut();
